@@ -600,6 +600,46 @@ func ruleC13_5(c *Ctx) {
 	var notKeys []string
 	for _, ns := range callsIn(f, "in_toto.NewSet") {
 		m := c.keysOfMap(ns.Common().Args[0], ns)
+		if m == nil && ns.Value() != nil && emptySliceValue(resolve(ns.Common().Args[0], ns)) {
+			// an empty set that receives, by Add, the key of every element of one map: unconditionally, in an
+			// exhaustive range over that map, and nothing else
+			var from ssa.Value
+			okAdds, nAdds := true, 0
+			for _, ad := range callsIn(f, "(in_toto.Set).Add") {
+				if resolve(ad.Common().Args[0], ad) != ns.Value() {
+					continue
+				}
+				nAdds++
+				km, kb := rangeKeyOf(resolve(ad.Common().Args[1], ad))
+				if km == nil || kb != ad.Block() {
+					okAdds = false
+					continue
+				}
+				km = resolve(km, nil)
+				if from != nil && from != km {
+					okAdds = false
+				}
+				from = km
+				for _, ml := range mapLoops(f) {
+					if resolve(ml.rng.X, ml.rng) != km || !ml.body[ad.Block()] {
+						continue
+					}
+					for b := range ml.body {
+						if b == ml.header || !reaches(b, ml.header) {
+							continue
+						}
+						for _, sc := range b.Succs {
+							if !ml.body[sc] && !c.failing(sc) {
+								okAdds = false
+							}
+						}
+					}
+				}
+			}
+			if okAdds && nAdds == 1 && from != nil {
+				m = from
+			}
+		}
 		switch {
 		case m == nil:
 			notKeys = append(notKeys, org(ns.Common().Args[0]))
@@ -685,6 +725,9 @@ func ruleC13_5(c *Ctx) {
 							s = org(mu.Value)
 						}
 					}
+				} else {
+					// the hash object itself, compared without a copy (by an equality predicate on two maps)
+					s = org(v)
 				}
 				return s
 			}
